@@ -40,6 +40,7 @@ type State struct {
 	recoverDepth int
 	writes       []WriteRec
 	iterPos      map[int]*Term
+	onceDone     map[*Term]bool
 	dead         bool
 }
 
@@ -70,6 +71,10 @@ func (s *State) clone() *State {
 	n.iterPos = make(map[int]*Term, len(s.iterPos))
 	for k, v := range s.iterPos {
 		n.iterPos[k] = v
+	}
+	n.onceDone = make(map[*Term]bool, len(s.onceDone))
+	for k, v := range s.onceDone {
+		n.onceDone[k] = v
 	}
 	n.trace = append([]Event(nil), s.trace...)
 	n.funcTrace = append([]Event(nil), s.funcTrace...)
@@ -127,8 +132,10 @@ type Exec struct {
 	initDone    map[*ssa.Package]bool
 	inInit      bool
 	discovering int
+	recFuel     map[*ssa.Function]int
 	nFrame      int
 	frameOff    bool
+	unroll      bool
 	trustedUsed []string
 }
 
@@ -143,7 +150,7 @@ func NewExec(c *Ctx, p *Program) *Exec {
 }
 
 func NewState() *State {
-	return &State{known: map[*Term]bool{}, cells: map[int]*Term{}, heap: map[string]*Term{}, arrs: map[string]*Term{}, maps: map[string]*Term{}, iterPos: map[int]*Term{}}
+	return &State{known: map[*Term]bool{}, cells: map[int]*Term{}, heap: map[string]*Term{}, arrs: map[string]*Term{}, maps: map[string]*Term{}, iterPos: map[int]*Term{}, onceDone: map[*Term]bool{}}
 }
 
 // assume adds cond to the path condition; false result = path infeasible.
@@ -584,6 +591,9 @@ func (x *Exec) callFunc(st *State, fn *ssa.Function, args []*Term, bindings []*T
 	if fn.Blocks == nil || !x.inModule(fn) {
 		return x.external(st, fn, args)
 	}
+	if isRecSpec(fn) && bindings == nil {
+		return x.recSpecCall(st, fn, args)
+	}
 	x.cover[originOf(fn)] = true
 	// recursion guard
 	for i := len(x.stack) - 1; i >= 0; i-- {
@@ -619,6 +629,63 @@ func (x *Exec) callFunc(st *State, fn *ssa.Function, args []*Term, bindings []*T
 	outs := x.runFrom(fr, st, fn.Blocks[0], 0)
 	x.stack = x.stack[:len(x.stack)-1]
 	return outs
+}
+
+// Recursive specification functions (ghost functions whose name starts with
+// "Rec") are uninterpreted symbols indexed by the heap they read; every call
+// site contributes their one-step unfolding as an assumption (fuel 1), the
+// inner recursive calls stay folded.  Inductive facts about them are separate
+// lemmas.
+func isRecSpec(fn *ssa.Function) bool {
+	o := originOf(fn)
+	if o.Pkg == nil || o.Parent() != nil {
+		return false
+	}
+	if strings.HasPrefix(o.Name(), "Rec_") {
+		return true // package-local ghost declaration
+	}
+	return strings.HasPrefix(o.Name(), "Rec") && strings.HasSuffix(o.Pkg.Pkg.Path(), "/internal/veriflaws")
+}
+
+func (x *Exec) recSpecCall(st *State, fn *ssa.Function, args []*Term) []Outcome {
+	c := x.c
+	sig := fn.Signature
+	if sig.Results().Len() != 1 {
+		return abortOut(st, "recursive spec function %s must have one result", fn)
+	}
+	rs := c.SortOf(sig.Results().At(0).Type())
+	all := []*Term{}
+	for i := 0; i < sig.Params().Len(); i++ {
+		if sl, ok := sig.Params().At(i).Type().Underlying().(*types.Slice); ok {
+			all = append(all, x.arrsOf(st, c.SortOf(sl.Elem())))
+		}
+	}
+	all = append(all, args...)
+	app := c.App("rec_"+shortName(fn.String()), rs, all...)
+	if x.recFuel[originOf(fn)] > 0 {
+		return []Outcome{{st: st, kind: ORet, val: app}}
+	}
+	if x.recFuel == nil {
+		x.recFuel = map[*ssa.Function]int{}
+	}
+	x.recFuel[originOf(fn)]++
+	fr := &Frame{fn: fn, env: map[ssa.Value]*Term{}, visits: map[*ssa.BasicBlock]int{}}
+	for i, p := range fn.Params {
+		fr.env[p] = x.coerce(args[i], p.Type())
+	}
+	s2 := st.clone()
+	s2.trace = nil
+	x.stack = append(x.stack, callRec{fn, args})
+	outs := x.runFrom(fr, s2, fn.Blocks[0], 0)
+	x.stack = x.stack[:len(x.stack)-1]
+	x.recFuel[originOf(fn)]--
+	mark := len(x.mergedFacts)
+	v, def, facts := x.mergeOuts(st, outs, rs)
+	_ = mark
+	if v != nil {
+		x.assumeFact(st, c.Implies(c.And(facts, def), c.Eq(app, v)))
+	}
+	return []Outcome{{st: st, kind: ORet, val: app}}
 }
 
 func originOf(fn *ssa.Function) *ssa.Function {
@@ -876,6 +943,11 @@ func (x *Exec) runFrom(fr *Frame, st *State, b *ssa.BasicBlock, i int) []Outcome
 				}
 			case *ssa.Call:
 				if isLoopInv(ins.Common()) {
+					if x.unroll {
+						// bounded lemma: loops are unrolled concretely, cut points ignored
+						fr.env[ins] = c.Ctor(c.Unit)
+						continue
+					}
 					return x.loopCut(fr, st, ins, b, i)
 				}
 				outs := x.doCall(fr, st, ins.Common())
@@ -1270,6 +1342,20 @@ func (x *Exec) external(st *State, fn *ssa.Function, args []*Term) []Outcome {
 	name := fn.String()
 	if outs, ok := x.trusted(st, fn, name, args); ok {
 		return outs
+	}
+	if name == "(*sync.Once).Do" {
+		// trusted contract of sync.Once: the first Do on a given Once runs f exactly once, later calls do nothing
+		x.noteTrusted("sync.Once.Do: runs its argument on the first call only (at most once under any schedule)")
+		o := args[0]
+		switch o.Op {
+		case "cell", "faddr":
+			if st.onceDone[o] {
+				return []Outcome{{st: st, kind: ORet, val: c.Ctor(c.Unit)}}
+			}
+			st.onceDone[o] = true
+			return x.applyFn(st, args[1], nil, true)
+		}
+		return abortOut(st, "sync.Once.Do on a symbolic Once")
 	}
 	for _, a := range args {
 		if a.Sort.Kind == KFn {
